@@ -36,7 +36,7 @@ def scale(profiles, k):
 Q01 = [("mailbox", 30000), ("backpressure", 8000), ("lifecycle", 8000), ("owning", 4000), ("burst", 3000), ("mix", 10000), ("timeout", 8000), ("restart", 4000), ("stream", 4000)]
 Q02 = [("mailbox", 16000), ("lifecycle", 16000), ("owning", 10000), ("backpressure", 4000), ("timeout", 6000), ("restart", 6000), ("faults+faults", 250), ("lifecycle+faults", 250), ("mix", 10000), ("mix+faults", 150)]
 Q03 = [("lifecycle", 24000), ("owning", 8000), ("handles", 6000), ("mailbox", 4000), ("stream", 8000), ("restart", 6000), ("timeout", 6000), ("mix", 10000)]
-Q04 = [("lifecycle", 30000), ("owning", 12000), ("mailbox", 6000), ("backpressure", 4000), ("timeout", 8000), ("restart", 4000), ("faults+faults", 250), ("lifecycle+faults", 250), ("mix", 10000), ("mix+faults", 150), ("stream", 8000)]
+Q04 = [("stoprace", 2000), ("lifecycle", 30000), ("owning", 12000), ("mailbox", 6000), ("backpressure", 4000), ("timeout", 8000), ("restart", 4000), ("faults+faults", 250), ("lifecycle+faults", 250), ("mix", 10000), ("mix+faults", 150), ("stream", 8000)]
 Q05 = [("handles", 24000), ("droprace", 2000), ("lifecycle", 12000), ("owning", 6000), ("mailbox", 4000), ("broker", 8000), ("stream", 6000), ("timers", 6000), ("tree", 8000), ("svckeep", 6000), ("mix", 10000)]
 Q12 = [("backpressure", 30000), ("mailbox", 10000), ("lifecycle", 4000), ("mix", 10000)]
 Q17 = [("owning", 30000), ("lifecycle", 10000), ("mailbox", 4000), ("timeout", 8000), ("restart", 8000), ("mix", 10000), ("owning+faults", 400)]
@@ -73,7 +73,7 @@ PLANS = {
                 "a submission was concurrent with, or begun after, a stop request",
                 ["C04.R1.send_before_stop_handled", "C04.R1.call_before_stop_ok", "C04.R2.after_stop_unhandled", "C04.R3.stop_terminates", "C04.R3.stop_not_starved_by_stream",
                  "C04.R4.await_after_stopped", "C04.R4.join_after_stopped", "C04.R5.await_result"],
-                mt=[('lifecycle', 400), ('owning', 240), ('mix', 160)], mt_required=['L2:C04.R2.after_stop_unhandled', 'L2:C04.R4.await_after_stopped']),
+                mt=[('lifecycle', 400), ('owning', 240), ('mix', 160), ('stoprace', 960)], mt_required=['L2:C04.R2.after_stop_unhandled', 'L2:C04.R4.await_after_stopped']),
     "C05": plan(Q05, scale(Q05, 40),
                 "the last strong handle of an actor was dropped while it was running, or a weak handle was upgraded after that",
                 ["C05.R1.no_termination_while_held", "C05.R1.child_list_keeps_alive", "C05.R1.registry_keeps_alive", "C05.R2.last_drop_terminates", "C05.R2.with_live_timers", "C05.R2.accepted_then_handled",
